@@ -205,10 +205,16 @@ def run_history(cfg, hist):
     log = []
     with Sim() as sim:
         n = k + m
+        holder = {}
+
+        def sender_output():
+            # what the sender shows while its event is being delivered
+            b = holder.get('blk')
+            return UNDEF if b is None else b.output
         if cfg['shared']:
-            dests = [Probe('p', log=log)] * n
+            dests = [Probe('p', log=log, extra=sender_output)] * n
         else:
-            dests = [Probe(f'p{i}', log=log) for i in range(n)]
+            dests = [Probe(f'p{i}', log=log, extra=sender_output) for i in range(n)]
         evs = []
         for i in range(n):
             etype = f"o{i}" if i < k else f"e{i - k}"
@@ -261,8 +267,10 @@ def run_history(cfg, hist):
                 blk = edzed.Not('snd', **kw).connect(inp)
             ext = edzed.ExtEvent(inp, 'put')
 
+        holder['blk'] = blk
+
         def deliveries(n0):
-            return [(e, canon_data(d)) for (_t, _n, e, d) in log[n0:]]
+            return [(e, canon_data(d)) for (_t, _n, e, d, _o) in log[n0:]]
 
         async def driver():
             task = asyncio.create_task(sim.circuit.run_forever())
@@ -315,6 +323,12 @@ def run_history(cfg, hist):
                     else:
                         kind = 'data'
                     info['viol'].append((kind, f"assign {V[vi]!r} in state {ref!r}: delivered {got!r}, expected {exp!r}"))
+                for (_t, _n, e, _d, seen) in log[n0:]:
+                    if not (type(seen) is type(newref) and (seen == newref or repr(seen) == repr(newref) == 'nan')):
+                        info['viol'].append(('output-during-delivery',
+                                             f"assign {V[vi]!r} in state {ref!r}: while event {e} was delivered the "
+                                             f"sender's output was {seen!r}, the new output is {newref!r}"))
+                        break
                 outv = blk.output
                 if not (type(outv) is type(newref) and (outv == newref or repr(outv) == repr(newref) == 'nan')):
                     info['viol'].append(('output-value', f"assign {V[vi]!r} in state {ref!r}: output {outv!r}, expected {newref!r}"))
